@@ -4,32 +4,19 @@ use crate::support::*;
 use core::cmp::Ordering;
 pub mod ty {
     #![deny(warnings)]
-    #![allow(dead_code, unused_imports)]
+    #![allow(dead_code, unused_imports, non_snake_case)]
     use crate::support::{A, B, C, Good, Bad, m_eq, m_cmp, m_pcmp, m_hash, m_fmt, m_clone, m_clone_c, m_into, g_eq, g_cmp, g_pcmp, g_hash, g_fmt};
     use educe::Educe;
-
-    // names at the derive site that shadow everything the generated code might be tempted to write unqualified
-    #[allow(non_camel_case_types)] pub struct Option; pub struct Result; pub struct Ordering; pub struct Clone; pub struct Copy;
-    pub struct Default; pub struct Debug; pub struct PartialEq; pub struct Eq; pub struct PartialOrd; pub struct Ord; pub struct Hash;
-    pub struct Hasher; pub struct Into; pub struct From; pub struct Deref; pub struct DerefMut; pub struct Formatter; pub struct String;
-    pub struct Vec; pub struct Box; pub struct PhantomData; pub struct Sized; pub struct Send; pub struct Iterator; pub struct Self_;
-    #[allow(non_snake_case)] pub fn Some() {} #[allow(non_snake_case)] pub fn None() {} #[allow(non_snake_case)] pub fn Ok() {} #[allow(non_snake_case)] pub fn Err() {}
-    pub fn drop() {} pub mod core {} pub mod std {} pub mod alloc {} pub mod fmt {} pub mod cmp {} pub mod hash {} pub mod clone {} pub mod marker {}
-    #[allow(unused_macros)] macro_rules! stringify { ($($t:tt)*) => { "SHADOWED" } }
-    #[allow(unused_macros)] macro_rules! unreachable { ($($t:tt)*) => { () } }
-    #[allow(unused_macros)] macro_rules! panic { ($($t:tt)*) => { () } }
-    #[allow(unused_macros)] macro_rules! matches { ($($t:tt)*) => { true } }
-    #[allow(unused_macros)] macro_rules! write { ($($t:tt)*) => { () } }
-    #[allow(unused_macros)] macro_rules! format_args { ($($t:tt)*) => { () } }
-    #[allow(unused_macros)] macro_rules! assert { ($($t:tt)*) => { () } }
 #[derive(Educe)]
-#[educe(PartialOrd, Ord, Eq, PartialEq)]
-pub struct T { pub other: A<0>, #[educe(PartialOrd(method(m_cmp)))] pub builder: A<1> }
+#[repr(u64)]
+#[educe(Eq, Ord, PartialEq)]
+#[educe(Debug)]
+pub enum T { B { #[educe(Ord(rank("-3"), ignore(false)), Debug(ignore))] size: A<0>, _y: A<0>, #[educe(Ord(method = "m_cmp"))] y: A<2>, #[educe(Ord(method = m_cmp, rank = 0x3))] source: A<3> }, Zed(#[educe(Ord(method(m_cmp), rank(2)))] A<0>, #[educe(Ord = false)] A<1>), A, None {  } }
 }
 pub use ty::T;
-
-pub fn values() -> Vec<T> { vec![T { other: A(0), builder: A(0) }, T { other: A(0), builder: A(1) }, T { other: A(0), builder: A(7) }, T { other: A(1), builder: A(0) }, T { other: A(1), builder: A(1) }, T { other: A(1), builder: A(7) }, T { other: A(7), builder: A(0) }, T { other: A(7), builder: A(1) }, T { other: A(7), builder: A(7) }] }
-pub fn show(x: &T) -> String { #[allow(unused_variables)] match x { T { other: p0, builder: p1 } => format!("T({},{})", sv(p0), sv(p1)) } }
-pub fn o_disc(x: &T) -> i128 { match x { T { other: _, builder: _ } => 0 } }
-pub fn o_cmp(a: &T, b: &T) -> Ordering { match (a, b) { (T { other: a0, builder: a1 }, T { other: b0, builder: b1 }) => { let c = ::core::cmp::Ord::cmp(a0, b0); if c != Ordering::Equal { return c; } let c = m_cmp(a1, b1); if c != Ordering::Equal { return c; } Ordering::Equal } } }
-pub fn run(out: &mut Out) { let vs = values(); for (i, a) in vs.iter().enumerate() { for (j, b) in vs.iter().enumerate() { let e = o_cmp(a, b); let g = ::core::cmp::Ord::cmp(a, b); out.check(g == e, "ord_25", "cmp", || format!("cmp({}, {}) = {:?} expected {:?}", show(a), show(b), g, e)); let g2 = ::core::cmp::PartialOrd::partial_cmp(a, b); out.check(g2 == Some(e), "ord_25", "partial_is_some_cmp", || format!("partial_cmp({}, {}) = {:?} expected Some({:?})", show(a), show(b), g2, e)); } } }
+impl PartialOrd for T { fn partial_cmp(&self, o: &Self) -> Option<Ordering> { Some(::core::cmp::Ord::cmp(self, o)) } }
+pub fn values() -> Vec<T> { vec![T::B { size: A(1), _y: A(1), y: A(7), source: A(1) }, T::B { size: A(0), _y: A(0), y: A(1), source: A(1) }, T::B { size: A(0), _y: A(0), y: A(0), source: A(1) }, T::B { size: A(7), _y: A(0), y: A(0), source: A(7) }, T::B { size: A(1), _y: A(1), y: A(0), source: A(0) }, T::B { size: A(0), _y: A(7), y: A(7), source: A(7) }, T::B { size: A(7), _y: A(1), y: A(0), source: A(1) }, T::B { size: A(0), _y: A(1), y: A(7), source: A(0) }, T::B { size: A(7), _y: A(7), y: A(1), source: A(1) }, T::Zed(A(0), A(0)), T::Zed(A(0), A(1)), T::Zed(A(0), A(7)), T::Zed(A(1), A(0)), T::Zed(A(1), A(1)), T::Zed(A(1), A(7)), T::Zed(A(7), A(0)), T::Zed(A(7), A(1)), T::Zed(A(7), A(7)), T::A, T::None {  }] }
+pub fn show(x: &T) -> String { #[allow(unused_variables)] match x { T::B { size: p0, _y: p1, y: p2, source: p3 } => format!("B({},{},{},{})", sv(p0), sv(p1), sv(p2), sv(p3)), T::Zed(p0, p1) => format!("Zed({},{})", sv(p0), sv(p1)), T::A => format!("A()"), T::None {  } => format!("None()") } }
+pub fn o_disc(x: &T) -> i128 { match x { T::B { size: _, _y: _, y: _, source: _ } => 0, T::Zed(_, _) => 1, T::A => 2, T::None {  } => 3 } }
+pub fn o_cmp(a: &T, b: &T) -> Ordering { match (a, b) { (T::B { size: a0, _y: a1, y: a2, source: a3 }, T::B { size: b0, _y: b1, y: b2, source: b3 }) => { let c = ::core::cmp::Ord::cmp(a1, b1); if c != Ordering::Equal { return c; } let c = m_cmp(a2, b2); if c != Ordering::Equal { return c; } let c = ::core::cmp::Ord::cmp(a0, b0); if c != Ordering::Equal { return c; } let c = m_cmp(a3, b3); if c != Ordering::Equal { return c; } Ordering::Equal }, (T::Zed(a0, a1), T::Zed(b0, b1)) => { let c = m_cmp(a0, b0); if c != Ordering::Equal { return c; } Ordering::Equal }, (T::A, T::A) => {  Ordering::Equal }, (T::None {  }, T::None {  }) => {  Ordering::Equal }, _ => o_disc(a).cmp(&o_disc(b)) } }
+pub fn run(out: &mut Out) { let vs = values(); for (i, a) in vs.iter().enumerate() { for (j, b) in vs.iter().enumerate() { let e = o_cmp(a, b); let g = ::core::cmp::Ord::cmp(a, b); out.check(g == e, "ord_25", "cmp", || format!("cmp({}, {}) = {:?} expected {:?}", show(a), show(b), g, e)); } } }
